@@ -502,7 +502,7 @@ class MeanSquaredScaledError(_ScaledSquaredMetricFunctionWrapper):
             func=func,
             name=name,
             greater_is_better=greater_is_better,
-            sp=1,
+            sp=sp,
             square_root=square_root,
         )
 
